@@ -15,6 +15,13 @@ pub struct Plan {
     pub bursts: Vec<(u8, u16)>,
     #[serde(default)]
     pub release: Vec<u8>,
+    /// When the code under test feeds the index writer from several *producer* threads (threads
+    /// other than the one that opened the database reach the document-feeding hook points), the
+    /// simulator lets exactly one of them run at a time: `(c, len)` cycled, meaning "of the producers
+    /// parked before their next document, sorted by what they were first seen doing, number
+    /// `c % parked` feeds its next `len` documents". Empty = each producer in turn runs to its end.
+    #[serde(default, skip_serializing_if = "Vec::is_empty")]
+    pub producers: Vec<(u8, u16)>,
 }
 
 /// A fault injected into one process start.
@@ -223,6 +230,24 @@ pub struct BuildInfo {
     pub taint: Vec<String>,
     /// hook points hit, with counts, in first-hit order
     pub points: Vec<(String, usize)>,
+    /// producer threads seen feeding documents (0 = only the opening thread did)
+    #[serde(default, skip_serializing_if = "is_zero")]
+    pub producers: usize,
+    /// hash of the realised feeding order (which producer fed the n-th document)
+    #[serde(default, skip_serializing_if = "String::is_empty")]
+    pub feed_hash: String,
+    /// scheduling decisions taken among producers, and how many changed the running producer
+    #[serde(default, skip_serializing_if = "is_zero")]
+    pub producer_decisions: usize,
+    #[serde(default, skip_serializing_if = "is_zero")]
+    pub producer_switches: usize,
+    /// the producers ran under the simulator's control from the first to the last document
+    #[serde(default, skip_serializing_if = "std::ops::Not::not")]
+    pub producers_controlled: bool,
+}
+
+fn is_zero(n: &usize) -> bool {
+    *n == 0
 }
 
 #[derive(Serialize, Deserialize, Clone, Debug, PartialEq, Eq)]
